@@ -169,29 +169,34 @@ Definition a_shape_ok (o : aobs) : bool :=
   | _, _ => false
   end.
 
-(* ghost of the walk: delivered count, no exhaust/close so far, no exhaust so far *)
-Definition a_live_after (live : bool) (op : aop) : bool :=
-  match op with AExhaust | AClose => false | _ => live end.
-Definition a_noex_after (noex : bool) (op : aop) : bool :=
-  match op with AExhaust => false | _ => noex end.
+(* The cursor into the declared body.  Reads advance it by what they returned; a successful
+   exhaust() consumes (and discards) everything that was left of the declared body, so it
+   moves the cursor to the end; close() abandons the stream where it is. *)
+Definition cursor_after (declared : bytes) (p : Z) (op : aop) (r : ares) : Z :=
+  match op, r with
+  | AExhaust, ANone => len declared
+  | _, _ => p + len (ares_bytes r)
+  end.
 
-(* failing clauses:  1 prefix / exact bytes   2 sized read <= size   3 receive() awaited
-   although Content-Length bytes had been received   4 tell() disagrees with the bytes
-   returned   5 eof reported before the whole declared body was returned   6 receive()
-   awaited after a disconnect   7 empty read although not at end-of-stream   8 shape *)
-Definition a_check (declared : bytes) (p : Z) (live noex : bool) (o : aobs) : list N :=
+(* failing clauses, for ALL histories:  1 prefix / exact bytes   2 sized read <= size
+   3 receive() awaited although Content-Length bytes had been received   4 tell() is not the
+   cursor (bytes returned + bytes skipped by exhaust)   5 eof reported on an open stream before
+   the cursor reached the end of the declared body   6 receive() awaited after a disconnect
+   7 empty read although not at end-of-stream   8 shape / undocumented error   9 bytes returned
+   after eof had been reported *)
+Definition a_check (declared : bytes) (p : Z) (eof_before : bool) (o : aobs) : list N :=
   let b := ares_bytes (ao_res o) in
-  let p' := p + len b in
+  let p' := cursor_after declared p (ao_op o) (ao_res o) in
   (if slice_ok declared p b then [] else [1%N])
   ++ (if a_sized_ok (ao_op o) b then [] else [2%N])
   ++ (if ao_over o =? 0 then [] else [3%N])
-  ++ (if (if noex then ao_tell o =? p' else p' <=? ao_tell o) then [] else [4%N])
-  ++ (if a_live_after live (ao_op o) && ao_eof o && negb (p' =? len declared)
-      then [5%N] else [])
+  ++ (if ao_tell o =? p' then [] else [4%N])
+  ++ (if ao_eof o && negb (ao_closed o) && negb (p' =? len declared) then [5%N] else [])
   ++ (if ao_late o =? 0 then [] else [6%N])
   ++ (if a_asks_for_data (ao_op o) && negb (nonempty b) && negb (ao_eof o)
          && (match ao_res o with ABytes _ => true | _ => false end) then [7%N] else [])
-  ++ (if a_shape_ok o then [] else [8%N]).
+  ++ (if a_shape_ok o then [] else [8%N])
+  ++ (if eof_before && nonempty b then [9%N] else []).
 
 (* The documented usage rule (falcon/asgi/stream.py, class docstring): "Apps may not use both
    read() and the asynchronous iterator interface to consume the same request body; the only
@@ -227,23 +232,29 @@ Definition susp_after (susp : bool) (op : aop) (r : ares) : bool :=
   | _, _ => susp
   end.
 
-Fixpoint a_oracle_from (declared : bytes) (p : Z) (live noex susp : bool) (obs : list aobs)
+Fixpoint a_oracle_from (declared : bytes) (p : Z) (eof_before susp : bool) (obs : list aobs)
   : list N :=
   match obs with
   | [] => []
   | o :: tl =>
     if susp && sized_read (ao_op o) then []
     else
-    a_check declared p live (a_noex_after noex (ao_op o)) o
-    ++ a_oracle_from declared (p + len (ares_bytes (ao_res o)))
-                     (a_live_after live (ao_op o)) (a_noex_after noex (ao_op o))
+    a_check declared p eof_before o
+    ++ a_oracle_from declared (cursor_after declared p (ao_op o) (ao_res o)) (ao_eof o)
                      (susp_after susp (ao_op o) (ao_res o)) tl
   end.
 
 Definition a_oracle (first : option (option bytes * bool)) (cl : option Z)
-           (events : list event) (tell0 : Z) (obs : list aobs) : list N :=
+           (events : list event) (tell0 : Z) (eof0 : bool) (obs : list aobs) : list N :=
   (if tell0 =? 0 then [] else [4%N])
-  ++ a_oracle_from (a_declared first cl events) 0 true true false obs.
+  ++ a_oracle_from (a_declared first cl events) 0 eof0 false obs.
+
+(* the cursor a history ends at *)
+Fixpoint acursor (declared : bytes) (p : Z) (ops : list aop) (tr : list (ares * ast)) : Z :=
+  match ops, tr with
+  | op :: ops', (r, _) :: tr' => acursor declared (cursor_after declared p op r) ops' tr'
+  | _, _ => p
+  end.
 
 Definition a_observe (op : aop) (p : ares * ast) : aobs :=
   let st := snd p in
